@@ -1053,7 +1053,20 @@ fn op_clean(c: u8, cx: &Cx) {
     let Some((oid, idx)) = wd.m.borrow().cr[i] else { return };
     let Some(cl) = wd.cr[i].take() else { return };
     let pre = oracle::pre_clean(wd, oid, idx);
+    wd.cleaning.borrow_mut().push((oid, idx));
+    struct PopCleaning;
+    impl Drop for PopCleaning {
+        fn drop(&mut self) {
+            if let Some(wd) = try_w() {
+                if let Ok(mut c) = wd.cleaning.try_borrow_mut() {
+                    c.pop();
+                }
+            }
+        }
+    }
+    let pop = PopCleaning;
     let _ = api(Frame::ApiClean, cx, "Cleanable::clean", || cl.clean());
+    drop(pop);
     oracle::post_clean(wd, oid, idx, &pre);
     // put the cleanable back unless the program dropped / replaced it meanwhile
     let still = wd.m.borrow().cr[i] == Some((oid, idx));
